@@ -46,6 +46,7 @@ import (
 	"encoding/hex"
 	"errors"
 	"fmt"
+	"math"
 	"sort"
 
 	"codeberg.org/TauCeti/mangle-go/analysis"
@@ -218,14 +219,36 @@ func (e *explainer) explain(goal ast.Atom, depth int) []*ProofNode {
 		}
 		rulePremises := rule.Premises
 		uf := unionfind.New()
-		headUF, err := unionfind.UnifyTermsExtend(rule.Head.Args, baseTermsFrom(goal), uf)
+		// A function application in the head cannot be unified with the goal; it is
+		// left out here and the evaluated head is compared with the goal below.
+		headPattern := make([]ast.BaseTerm, len(rule.Head.Args))
+		headHasApply := false
+		for i, arg := range rule.Head.Args {
+			if _, isApply := arg.(ast.ApplyFn); isApply {
+				headPattern[i] = ast.Variable{Symbol: "_"}
+				headHasApply = true
+			} else {
+				headPattern[i] = arg
+			}
+		}
+		headUF, err := unionfind.UnifyTermsExtend(headPattern, baseTermsFrom(goal), uf)
 		if err != nil {
 			continue
 		}
 		remaining := e.opts.MaxProofs - len(proofs)
+		if headHasApply {
+			// Body solutions are filtered by the head below, so the first ones found may not count.
+			remaining = math.MaxInt32
+		}
 		for _, sol := range e.solveBody(rulePremises, headUF, depth, remaining) {
 			if len(proofs) >= e.opts.MaxProofs {
 				break
+			}
+			if headHasApply {
+				head, err := functional.EvalAtom(rule.Head, sol.subst)
+				if err != nil || !head.Equals(goal) {
+					continue
+				}
 			}
 			proof, ok := e.buildProof(&e.program.Rules[ruleIdx], ruleIdx, rule, goal, sol, depth)
 			if !ok {
